@@ -116,9 +116,9 @@ CLAIMED = {
         note="Not decided: equality of results between bulk and plain ingestion (values). The rule found a genuine defect (skip-index commit dropped embeddings), repaired by fix commit e30c60f.",
         design_ref="DESIGN.md §4 C40"),
     "C24": dict(
-        technique="guard-edge dominance of every WAL append by the capacity comparison + coupling check (fields read by the guard vs fields advanced on the acknowledged path, through callee bodies) + field-read coverage of the usage seed",
+        technique="guard-edge dominance of every WAL append by the capacity comparison + coupling check (fields read by the guard vs fields advanced on the acknowledged path, through callee bodies) + field-read coverage of the usage seed + same-call agreement between the admitted and the stored payload",
         text="Partial: every WAL append in put_internal is dominated by projected <= capacity_limit() with the failing edge returning CapacityExceeded, projected includes the "
-             "incoming payload, capacity_limit is ticket-or-tier, cached_payload_end is monotone; and the usage counter the guard reads must be advanced by the put path itself. The open-time seed of the usage counter ranges over every frame that owns payload bytes (no Frame field other than payload_offset/payload_length is read).",
+             "incoming payload, capacity_limit is ticket-or-tier, cached_payload_end is monotone; and the usage counter the guard reads must be advanced by the put path itself. The open-time seed of the usage counter ranges over every frame that owns payload bytes (no Frame field other than payload_offset/payload_length is read). Every prepared buffer whose length the capacity guard admits is the buffer stored in the WAL entry.",
         note="Not decided: the numeric bound over histories. Known finding (open): the guard's counter is only advanced at commit, so un-committed puts are not counted. "
              "Untriaged candidate (not armed): enable_vec()/manifest.dimension are stored before the capacity check.",
         design_ref="DESIGN.md §4 C24"),
@@ -156,10 +156,10 @@ CLAIMED = {
         note="Not decided: completeness (every active document frame exactly once). The rule found a genuine defect (unsorted vector consumed), repaired by fix commit f554041.",
         design_ref="DESIGN.md §4 C15"),
     "C20": dict(
-        technique="stored-checksum use analysis: comparison of Frame.checksum with blake3(payload) must gate the serving path and verify(deep); edge-cut must-pass-through in read_toc and the track loaders + digest-coverage rule for the WAL record header",
+        technique="stored-checksum use analysis: comparison of Frame.checksum with blake3(payload) must gate the serving path and verify(deep); edge-cut must-pass-through in read_toc and the track loaders + digest-coverage rule for the WAL record header + edge-cut reachability for the re-verification of a recovered TOC",
         text="Partial (checksum use): read_frame_payload_bytes returns Ok only past blake3(buf) == frame.checksum, verify(deep) reads every active payload through that comparison, "
              "raw readers that bypass it are reported; read_toc returns Ok only through footer decode, toc_len equality, hash_matches, verify_toc_prefix and Toc::decode; track loaders "
-             "deserialise only past their checksum comparison. The evidence lists stored index-manifest checksums that no code compares (information only). The WAL record digest must depend on every header field its reader acts on (sequence).",
+             "deserialise only past their checksum comparison. The evidence lists stored index-manifest checksums that no code compares (information only). The WAL record digest must depend on every header field its reader acts on (sequence). A TOC whose first checksum verification failed is served by open_locked only after a later verify_checksum succeeded.",
         note="Not decided: detection of every single-byte corruption. Fix commit 34d4061 added the payload comparison; known finding (open): blob_reader streams Plain payloads unchecked. Known finding (open): the WAL record digest covers the payload only, so a flipped sequence byte of a checkpointed record makes open replay it.",
         design_ref="DESIGN.md §4 C20"),
     "C30": dict(
@@ -190,9 +190,9 @@ CLAIMED = {
         note="Not decided: substring/phrase/field matching semantics (values), tokenizer totality. The rule found a genuine defect (unbounded recursion), repaired by fix commit 8cd7524.",
         design_ref="DESIGN.md §4 C32"),
     "C22": dict(
-        technique="two Engler-style checkers over the 900+ functions reachable from the untrusted-input entry points: explicit-assertion reachability (macro provenance) and range check of file-derived allocation sizes + guarded-subtraction checker for file-derived subtrahends",
+        technique="two Engler-style checkers over the 900+ functions reachable from the untrusted-input entry points: explicit-assertion reachability (macro provenance) and range check of file-derived allocation sizes + guarded-subtraction checker for file-derived subtrahends + clamp check for loop-carried windows subtracted from a buffer length",
         text="Partial: no explicit assertion macro is reachable from open/verify/doctor/read entry points except reviewed sites; every allocation sized by a file-derived integer is "
-             "bounded by a constant, the file length, a clamp or a validator on its path. Every unsigned subtraction whose subtrahend is read from the file is dominated by a b <= a edge for the same a, clamped with min(), or the minuend was formed by adding that value.",
+             "bounded by a constant, the file length, a clamp or a validator on its path. Every unsigned subtraction whose subtrahend is read from the file is dominated by a b <= a edge for the same a, clamped with min(), or the minuend was formed by adding that value. `len - w` with a loop-carried window w requires every definition of w to be clamped with min() or a w <= len edge.",
         note="Not decided: panic-freedom of indexing/arithmetic sites, termination. The rule found a genuine defect (doctor debug_assert on pending WAL records), repaired by fix commit 706186b. "
              "Untriaged candidate: debug_assert_eq on vector lengths in simd (debug builds only).",
         design_ref="DESIGN.md §4 C22"),
@@ -233,9 +233,9 @@ CLAIMED = {
              "feature configuration, where replay/parallel_segments sidecars are findings.",
         design_ref="DESIGN.md §4 C19"),
     "C23": dict(
-        technique="taint analysis on type-checked MIR: nondeterminism sources (clock, RNG, UUID, Tantivy segment snapshot) to persisted aggregates and file writes, with the explicit-input override idiom as the only sanitizer; type-graph scan of the persisted roots for serde-serialised RandomState collections (derive list / serde(skip) read from the struct source, since macro expansion removes helper attributes from the HIR) + iteration-order rule (no file write / position store inside a loop over a RandomState iterator)",
+        technique="taint analysis on type-checked MIR: nondeterminism sources (clock, RNG, UUID, Tantivy segment snapshot) to persisted aggregates and file writes, with the explicit-input override idiom as the only sanitizer; type-graph scan of the persisted roots for serde-serialised RandomState collections (derive list / serde(skip) read from the struct source, since macro expansion removes helper attributes from the HIR) + iteration-order rule (no file write / position store inside a loop over a RandomState iterator) + hash-order rule for the functions feeding persisted put metadata",
         text="Partial: with an explicit timestamp, no clock/RNG/UUID value reaches WalEntryData/Frame fields or bytes written to the memory file on the put path; the clock feeds the "
-             "timestamp only as the default of options.timestamp; no serde-serialised type reachable from the persisted roots holds a HashMap/HashSet field that is not skipped. No loop driven by HashMap/HashSet iteration writes the file or assigns file positions.",
+             "timestamp only as the default of options.timestamp; no serde-serialised type reachable from the persisted roots holds a HashMap/HashSet field that is not skipped. No loop driven by HashMap/HashSet iteration writes the file or assigns file positions. No function feeding the WAL entry of a put lets HashMap/HashSet iteration order decide its result.",
         note="Not decided: byte identity (runtime). Known finding (open): Tantivy segment names (random UUIDs) and snapshot bytes are embedded in the file, so two identical histories differ "
              "in bytes. The type rule found a genuine defect (memories-track maps serialised in HashMap order), repaired by fix commit 00289e5.",
         design_ref="DESIGN.md §4 C23"),
